@@ -325,7 +325,14 @@ impl Router {
             Ok(hostname) => {
                 //FIXME: necessary ti build on stable rust (1.35), can be removed once 1.36 is there
                 let mut empty = true;
-                if let Some((_, paths)) = self.tree.domain_lookup_mut(hostname.as_bytes(), false) {
+                // `domain_lookup_mut` also resolves a hostname through a regex
+                // host pattern that matches it; only the leaf stored under this
+                // very hostname is the frontend being managed.
+                if let Some((_, paths)) = self
+                    .tree
+                    .domain_lookup_mut(hostname.as_bytes(), false)
+                    .filter(|(key, _)| key.as_slice() == hostname.as_bytes())
+                {
                     empty = false;
                     let before = paths.len();
                     if !paths.iter().any(|(p, m, _)| p == path && m == method) {
@@ -395,7 +402,11 @@ impl Router {
         match ::idna::domain_to_ascii(hostname) {
             Ok(hostname) => {
                 let should_delete = {
-                    let paths_opt = self.tree.domain_lookup_mut(hostname.as_bytes(), false);
+                    // only the leaf stored under this very hostname (see add_tree_rule)
+                    let paths_opt = self
+                        .tree
+                        .domain_lookup_mut(hostname.as_bytes(), false)
+                        .filter(|(key, _)| key.as_slice() == hostname.as_bytes());
 
                     if let Some((_, paths)) = paths_opt {
                         paths.retain(|(p, m, _)| p != path || m != method);
